@@ -56,6 +56,35 @@ void harness(void) {
     __CPROVER_assert(vp_live == 0, "destroyLinkedMultiPolygon releases every block of the result");
     if (np == 2 && in_nl[0] == 2 && in_nc[0] == 2) __CPROVER_assert(allocated >= 5, "shape was really built");
 }
+#elif defined(NORMALIZE)
+// normalizeMultiPolygon + destroyLinkedMultiPolygon: whatever the winding of the NL loops and whichever polygon (or none)
+// each hole is assigned to, every block is released afterwards - on success and on the error return alike.
+#include "allocshim.h"
+int in_cw[4], in_assign[4];
+static int nfind;
+bool isClockwiseLinkedGeoLoop(const LinkedGeoLoop *loop) { static int n; int k = n++; __CPROVER_assume(k < 4); return in_cw[k]; }
+void bboxFromLinkedGeoLoop(const LinkedGeoLoop *loop, BBox *bbox) { }
+const LinkedGeoPolygon *findPolygonForHole(const LinkedGeoLoop *loop, const LinkedGeoPolygon *polygon, const BBox *bboxes, const int polygonCount) {
+    int k = nfind++; __CPROVER_assume(k < 4);
+    int a = in_assign[k];                      // -1: no parent found; otherwise the a-th polygon of the list
+    if (a < 0) return 0;
+    const LinkedGeoPolygon *p = polygon;
+    for (int i = 0; i < 3; i++) if (i < a && p && p->next) p = p->next;
+    return (polygonCount > 0) ? p : 0;
+}
+void harness(void) {
+    vp_alloc_init();
+    for (int i = 0; i < VP_MAXALLOC; i++) __CPROVER_assume(!in_fail[i]);
+    for (int i = 0; i < 4; i++) { in_cw[i] = vp_int_i("in_cw", i) & 1; in_assign[i] = vp_int_i("in_assign", i); __CPROVER_assume(in_assign[i] >= -1 && in_assign[i] <= 2); }
+    VP_EXCLUDE();
+    LinkedGeoPolygon root = {0};
+    LatLng v = {0.1, 0.2};
+    for (int j = 0; j < NL; j++) { LinkedGeoLoop *l = addNewLinkedLoop(&root); addLinkedCoord(l, &v); }
+    H3Error e = normalizeMultiPolygon(&root);
+    if (e) VP_WITNESS("normalize error"); else VP_WITNESS("normalize ok");
+    H3_EXPORT(destroyLinkedMultiPolygon)(&root);   // what cellsToLinkedMultiPolygon does on error and the caller does on success
+    __CPROVER_assert(vp_live == 0, "after normalisation (success or error) and destroy nothing is left allocated");
+}
 #elif defined(GRAPHERR)
 #include "allocshim.h"
 #include "memmodel.h"
